@@ -37,6 +37,7 @@ import Scc.A64.Backend
 import Scc.RV.Backend
 import Scc.Fun2Core.Hygiene
 import Scc.Fun.ZeroEdge
+import Scc.Props.C14Generic
 
 open Scc
 
@@ -148,6 +149,13 @@ def dispatch (line : String) : IO String := do
     | "unique" => pure (Scc.Core.runLineUniqueCheck text)
     | "ax" => pure (Scc.AxCut.Named.checkLine text)
     | "lin" => pure (linCheckLine text)
+    | "labelsafe" =>
+      match Sexp.parse text with
+      | none => pure "ERR sexp"
+      | some sx =>
+        match AxCut.readProg (text.length + 10) sx with
+        | none => pure "ERR read"
+        | some p => pure ("OK " ++ toString (Scc.Props.C14Generic.LabelSafe p))
     | _ => pure "ERR unknown checker"
   | ["fmttok", dumpFile, textFile] => do
     pure (Scc.Fun.Print.runLineFmtTokens (← IO.FS.readFile dumpFile) (← IO.FS.readFile textFile))
